@@ -1,6 +1,8 @@
-(* One switch for Corr.C18: does the tree under test carry proposed_fixes/D75b.diff (the repair of the quantified-variable
-   half of finding D75: change_signature renames a quantified variable out of the way when a new parameter name equals
-   it)?  /repo does NOT: the registered check runs with [false], the model is Model.ChangeSignature and captures by a
-   quantified variable are the recorded finding D75.  Set to [true] ONLY together with the commit of that patch to /repo
-   (then the model is Model.ChangeSignatureAlpha and such mappings are judged like every admissible one). *)
-Definition d75b_patched : bool := false.
+(* One switch for Corr.C18: does the tree under test carry the repair of the quantified-variable half of finding D75
+   (change_signature renames a quantified variable out of the way when a new parameter name equals it)?
+   /repo DOES since eb5fde6 (proposed_fixes/D75b.diff): the registered check runs with [true] - the model of
+   Action.change_signature is Model.ChangeSignatureAlpha.change_signature_a, and a mapping that lands on a quantified
+   variable is judged like every admissible one (texts compared up to the names of bound variables).
+   [false] describes the code before eb5fde6 (model Model.ChangeSignature.change_signature; such mappings are then the
+   capture class of the finding) and is kept only to re-run the check against such a tree. *)
+Definition d75b_patched : bool := true.
